@@ -514,4 +514,265 @@ theorem updateCopies_local (p : Params) (k : Task) (r : Rect) (hr : updateRect p
   unfold updateCopies
   simp only [hr, Bool.false_eq_true, ↓reduceIte]
 
+/-! ## effect on the target matrix -/
+
+theorem applyCopies_untouched {α : Type} (src : Nat → Nat → α) (l : List ECopy) (tgt : Nat → Nat → α) (i j : Nat)
+    (h : ∀ c ∈ l, ¬ (c.ti = i ∧ c.tj = j)) : applyCopies src l tgt i j = tgt i j := by
+  induction l generalizing tgt with
+  | nil => rfl
+  | cons c cs ih =>
+    simp only [applyCopies]
+    rw [ih _ (fun c' hc' => h c' (List.mem_cons_of_mem _ hc'))]
+    have h0 := h c (List.mem_cons_self ..)
+    exact if_neg (fun hh => h0 ⟨hh.1.symm, hh.2.symm⟩)
+
+theorem applyCopies_written {α : Type} (src : Nat → Nat → α) (l : List ECopy) (tgt : Nat → Nat → α) (i j : Nat) (v : α)
+    (hval : ∀ c ∈ l, c.ti = i → c.tj = j → src c.si c.sj = v) (hex : ∃ c ∈ l, c.ti = i ∧ c.tj = j) :
+    applyCopies src l tgt i j = v := by
+  induction l generalizing tgt with
+  | nil => obtain ⟨c, hc, _⟩ := hex; cases hc
+  | cons c cs ih =>
+    simp only [applyCopies]
+    by_cases h : ∃ c' ∈ cs, c'.ti = i ∧ c'.tj = j
+    · exact ih _ (fun c' hc' => hval c' (List.mem_cons_of_mem _ hc')) h
+    · have hun : ∀ c' ∈ cs, ¬ (c'.ti = i ∧ c'.tj = j) := fun c' hc' hh => h ⟨c', hc', hh⟩
+      rw [applyCopies_untouched src cs _ i j hun]
+      obtain ⟨c0, hc0, h1, h2⟩ := hex
+      rcases List.mem_cons.mp hc0 with heq | hin
+      · have h1' : c.ti = i := heq ▸ h1
+        have h2' : c.tj = j := heq ▸ h2
+        rw [if_pos ⟨h1'.symm, h2'.symm⟩]
+        exact hval c (List.mem_cons_self ..) h1' h2'
+      · exact absurd ⟨c0, hin, h1, h2⟩ h
+
+/-- Any list of element copies that consists of window copies and contains every window copy produces
+    the matrix required by the property statement, whatever the order of the list. -/
+theorem window_result {α : Type} (p : Params) (src tgt : Nat → Nat → α) (l : List ECopy)
+    (hs : ∀ c ∈ l, IsWindowCopy p c)
+    (hc : ∀ i j, i < p.sizeRow → j < p.sizeCol → (⟨p.diT + i, p.djT + j, p.diY + i, p.djY + j⟩ : ECopy) ∈ l) :
+    applyCopies src l tgt = windowSpec p src tgt := by
+  funext i j
+  unfold windowSpec
+  by_cases hw : p.diT ≤ i ∧ i < p.diT + p.sizeRow ∧ p.djT ≤ j ∧ j < p.djT + p.sizeCol
+  · rw [if_pos hw]
+    apply applyCopies_written
+    · intro c hc' h1 h2
+      obtain ⟨i0, j0, _, _, rfl⟩ := hs c hc'
+      simp only at h1 h2 ⊢
+      have e1 : p.diY + i0 = p.diY + (i - p.diT) := by omega
+      have e2 : p.djY + j0 = p.djY + (j - p.djT) := by omega
+      rw [e1, e2]
+    · refine ⟨_, hc (i - p.diT) (j - p.djT) (by omega) (by omega), ?_, ?_⟩ <;> simp only <;> omega
+  · rw [if_neg hw]
+    apply applyCopies_untouched
+    intro c hc' ⟨h1, h2⟩
+    obtain ⟨i0, j0, hi0, hj0, rfl⟩ := hs c hc'
+    simp only at h1 h2
+    omega
+
+theorem general_window {α : Type} (p : Params) (hv : p.Valid) (remote : Task → Bool) (order : List Task)
+    (hperm : order.Perm (generalTasks p)) (src tgt : Nat → Nat → α) :
+    applyCopies src (generalCopies p remote order) tgt = windowSpec p src tgt := by
+  apply window_result
+  · intro c hc
+    unfold generalCopies at hc
+    obtain ⟨k, hk, hck⟩ := List.mem_flatMap.mp hc
+    have hk' := mem_generalTasks.mp (hperm.mem_iff.mp hk)
+    rw [updateCopies_remote p hv remote k hk'] at hck
+    obtain ⟨r, hr, hsound, _⟩ := general_task_sound p hv k hk'
+    rw [updateCopies_local p k r hr] at hck
+    exact hsound c hck
+  · intro i j hi hj
+    obtain ⟨k, hk, r, hr, hmem⟩ := general_complete p hv i j hi hj
+    unfold generalCopies
+    refine List.mem_flatMap.mpr ⟨k, hperm.mem_iff.mpr (mem_generalTasks.mpr hk), ?_⟩
+    rw [updateCopies_remote p hv remote k hk, updateCopies_local p k r hr]
+    exact hmem
+
+/-! ## the reshuffle path -/
+
+structure Dim.Aligned (d : Dim) : Prop where
+  same : d.bY = d.bT
+  y : d.dY % d.bY = 0
+  t : d.dT % d.bT = 0
+
+theorem Dim.tEndR_eq (d : Dim) : d.tEndR = d.tEnd := by
+  unfold Dim.tEndR Dim.tEnd; rw [Nat.add_comm]
+
+theorem optimized_aligned (p : Params) (h : p.optimized = true) : p.row.Aligned ∧ p.col.Aligned := by
+  unfold Params.optimized at h
+  simp only [Bool.and_eq_true, beq_iff_eq] at h
+  obtain ⟨⟨⟨⟨⟨h1, h2⟩, h3⟩, h4⟩, h5⟩, h6⟩ := h
+  exact ⟨⟨h1, h3, h5⟩, ⟨h2, h4, h6⟩⟩
+
+theorem rdim_sound (d : Dim) (hv : d.Valid) (ha : d.Aligned) (t : Nat) (h1 : d.tStart ≤ t) (h2 : t ≤ d.tEndR) :
+    ∃ w0, d.bT * t = d.dT + w0 ∧ d.bY * (t - d.tStart + d.yStartR) = d.dY + w0 ∧
+      w0 + d.lenR t ≤ d.size ∧ d.lenR t ≤ d.bT ∧ 1 ≤ d.lenR t := by
+  obtain ⟨hs, hy, ht⟩ := ha
+  have hb := hv.bT
+  have hsz := hv.size
+  rw [hs] at hy
+  have eT := mod_eq_sub d.bT d.dT
+  have aT := div_lo d.bT d.dT
+  have eY := mod_eq_sub d.bT d.dY
+  have aY := div_lo d.bT d.dY
+  have a3 := div_lo d.bT (d.dT + d.size - 1)
+  have a4 := div_hi d.bT (d.dT + d.size - 1) hb
+  unfold Dim.lenR Dim.yStartR
+  unfold Dim.tStart Dim.tEndR at *
+  rw [hs, Nat.mul_add, Nat.mul_sub]
+  simp only [sub_mul_comm]
+  generalize d.dT / d.bT = qS at *
+  generalize d.dY / d.bT = yS at *
+  generalize (d.dT + d.size - 1) / d.bT = qE at *
+  have l0 := mul_le_step (b := d.bT) h1
+  refine ⟨d.bT * t - d.dT, ?_⟩
+  by_cases c : t = qE
+  · subst c
+    simp only [↓reduceIte]
+    omega
+  · have l2 := mul_lt_step (b := d.bT) (show t < qE by omega)
+    simp only [c, ↓reduceIte]
+    omega
+
+theorem rdim_complete (d : Dim) (hv : d.Valid) (ha : d.Aligned) (w : Nat) (hw : w < d.size) :
+    ∃ t k, d.tStart ≤ t ∧ t ≤ d.tEndR ∧ k < d.lenR t ∧ d.bT * t + k = d.dT + w := by
+  obtain ⟨hs, hy, ht⟩ := ha
+  have hb := hv.bT
+  have ht1 : d.tStart ≤ (d.dT + w) / d.bT := Nat.div_le_div_right (by omega)
+  have ht2 : (d.dT + w) / d.bT ≤ d.tEndR := Nat.div_le_div_right (by omega)
+  refine ⟨(d.dT + w) / d.bT, d.dT + w - d.bT * ((d.dT + w) / d.bT), ht1, ht2, ?_, ?_⟩
+  · have eT := mod_eq_sub d.bT d.dT
+    have aT := div_lo d.bT d.dT
+    have a3 := div_lo d.bT (d.dT + d.size - 1)
+    have a4 := div_hi d.bT (d.dT + d.size - 1) hb
+    have b1 := div_lo d.bT (d.dT + w)
+    have b2 := div_hi d.bT (d.dT + w) hb
+    unfold Dim.lenR
+    unfold Dim.tStart Dim.tEndR at *
+    simp only [sub_mul_comm]
+    generalize d.dT / d.bT = qS at *
+    generalize (d.dT + d.size - 1) / d.bT = qE at *
+    generalize (d.dT + w) / d.bT = t at *
+    have l0 := mul_le_step (b := d.bT) ht1
+    by_cases c : t = qE
+    · subst c; simp only [↓reduceIte]; omega
+    · simp only [c, ↓reduceIte]; omega
+  · have b1 := div_lo d.bT (d.dT + w); omega
+
+/-- membership in the task space of the reshuffle `Receive` (with its derived source tile) -/
+def InReshuffle (p : Params) (k : Task) : Prop :=
+  k.batch ≤ p.nt ∧ (p.row.tStart ≤ k.mT ∧ k.mT ≤ p.row.tEndR) ∧
+  (p.batchLo k.batch ≤ k.nT ∧ k.nT ≤ p.batchHi k.batch) ∧
+  k.mY = k.mT - p.row.tStart + p.row.yStartR ∧ k.nY = k.nT - p.col.tStart + p.col.yStartR
+
+theorem mem_reshuffleTasks {p : Params} {k : Task} : k ∈ reshuffleTasks p ↔ InReshuffle p k := by
+  have e : ∀ b, min ((b + 1) * p.numCol + p.col.tStart - 1) p.col.tEndR = p.batchHi b := fun b => by
+    rw [Dim.tEndR_eq]; rfl
+  unfold reshuffleTasks InReshuffle
+  simp only [List.mem_flatMap, List.mem_map, mem_rangeIncl, e]
+  constructor
+  · rintro ⟨b, hb, mT, hmT, nT, hnT, rfl⟩
+    exact ⟨hb.2, hmT, hnT, rfl, rfl⟩
+  · rintro ⟨h1, h2, h3, h4, h5⟩
+    refine ⟨k.batch, ⟨Nat.zero_le _, h1⟩, k.mT, h2, k.nT, h3, ?_⟩
+    cases k; simp only at h4 h5; subst h4 h5; rfl
+
+theorem reshuffle_task_sound (p : Params) (hv : p.Valid) (ho : p.optimized = true) (k : Task) (hk : InReshuffle p k) :
+    (∀ c ∈ rectCopies p k (receiveRect p k), IsWindowCopy p c) ∧
+      (receiveRect p k).rows ≤ p.mbT ∧ (receiveRect p k).cols ≤ p.nbT ∧
+      (receiveRect p k).rows ≤ p.mbY ∧ (receiveRect p k).cols ≤ p.nbY ∧
+      1 ≤ (receiveRect p k).rows ∧ 1 ≤ (receiveRect p k).cols := by
+  obtain ⟨har, hac⟩ := optimized_aligned p ho
+  obtain ⟨_, ⟨m1, m2⟩, ⟨n1, n2⟩, hmY, hnY⟩ := hk
+  obtain ⟨n1', n2'⟩ := batch_range p _ _ n1 n2
+  rw [← Dim.tEndR_eq] at n2'
+  obtain ⟨wa, qa1, qa2, qa3, qa4, qa5⟩ := rdim_sound p.row hv.row har k.mT m1 m2
+  obtain ⟨wb, qb1, qb2, qb3, qb4, qb5⟩ := rdim_sound p.col hv.col hac k.nT n1' n2'
+  rw [← hmY] at qa2; rw [← hnY] at qb2
+  have qa1' : p.mbT * k.mT = p.diT + wa := qa1
+  have qa2' : p.mbY * k.mY = p.diY + wa := qa2
+  have qa3' : wa + p.row.lenR k.mT ≤ p.sizeRow := qa3
+  have qb1' : p.nbT * k.nT = p.djT + wb := qb1
+  have qb2' : p.nbY * k.nY = p.djY + wb := qb2
+  have qb3' : wb + p.col.lenR k.nT ≤ p.sizeCol := qb3
+  have s1 : p.mbY = p.mbT := har.same
+  have s2 : p.nbY = p.nbT := hac.same
+  have qa4' : p.row.lenR k.mT ≤ p.mbT := qa4
+  have qb4' : p.col.lenR k.nT ≤ p.nbT := qb4
+  refine ⟨?_, qa4', qb4', by show p.row.lenR k.mT ≤ p.mbY; omega, by show p.col.lenR k.nT ≤ p.nbY; omega, qa5, qb5⟩
+  intro c hc
+  obtain ⟨a, b, ha, hb, rfl⟩ := mem_rectCopies.mp hc
+  have ha' : a < p.row.lenR k.mT := ha
+  have hb' : b < p.col.lenR k.nT := hb
+  refine ⟨wa + a, wb + b, by omega, by omega, ?_⟩
+  simp only [ECopy.mk.injEq, receiveRect]; omega
+
+theorem reshuffle_complete (p : Params) (hv : p.Valid) (ho : p.optimized = true) (i j : Nat)
+    (hi : i < p.sizeRow) (hj : j < p.sizeCol) :
+    ∃ k, InReshuffle p k ∧ (⟨p.diT + i, p.djT + j, p.diY + i, p.djY + j⟩ : ECopy) ∈ rectCopies p k (receiveRect p k) := by
+  obtain ⟨har, hac⟩ := optimized_aligned p ho
+  obtain ⟨mT, a, m1, m2, ha, qa⟩ := rdim_complete p.row hv.row har i hi
+  obtain ⟨nT, b, n1, n2, hb, qb⟩ := rdim_complete p.col hv.col hac j hj
+  rw [Dim.tEndR_eq] at n2
+  obtain ⟨bt, hb1, hb2, hb3⟩ := batch_cover p hv.numCol nT n1 n2
+  rw [← Dim.tEndR_eq] at n2
+  obtain ⟨wa, qa1, qa2, _⟩ := rdim_sound p.row hv.row har mT m1 m2
+  obtain ⟨wb, qb1, qb2, _⟩ := rdim_sound p.col hv.col hac nT n1 n2
+  have qa' : p.mbT * mT + a = p.diT + i := qa
+  have qb' : p.nbT * nT + b = p.djT + j := qb
+  have qa1' : p.mbT * mT = p.diT + wa := qa1
+  have qa2' : p.mbY * (mT - p.row.tStart + p.row.yStartR) = p.diY + wa := qa2
+  have qb1' : p.nbT * nT = p.djT + wb := qb1
+  have qb2' : p.nbY * (nT - p.col.tStart + p.col.yStartR) = p.djY + wb := qb2
+  refine ⟨⟨bt, mT, nT, mT - p.row.tStart + p.row.yStartR, nT - p.col.tStart + p.col.yStartR⟩,
+    ⟨hb1, ⟨m1, m2⟩, ⟨hb2, hb3⟩, rfl, rfl⟩, ?_⟩
+  refine mem_rectCopies.mpr ⟨a, b, ha, hb, ?_⟩
+  simp only [ECopy.mk.injEq, receiveRect]; omega
+
+/-- Exactly once on the reshuffle path. -/
+theorem reshuffle_disjoint (p : Params) (hv : p.Valid) (ho : p.optimized = true) (k k' : Task)
+    (hk : InReshuffle p k) (hk' : InReshuffle p k')
+    (c c' : ECopy) (hc : c ∈ rectCopies p k (receiveRect p k)) (hc' : c' ∈ rectCopies p k' (receiveRect p k'))
+    (hi : c.ti = c'.ti) (hj : c.tj = c'.tj) : k = k' ∧ c = c' := by
+  obtain ⟨_, t2, t3, t4, t5, _⟩ := reshuffle_task_sound p hv ho k hk
+  obtain ⟨_, t2', t3', t4', t5', _⟩ := reshuffle_task_sound p hv ho k' hk'
+  obtain ⟨_, _, ⟨n1, n2⟩, hmY, hnY⟩ := hk
+  obtain ⟨_, _, ⟨n1', n2'⟩, hmY', hnY'⟩ := hk'
+  obtain ⟨a, b, ha, hb, rfl⟩ := mem_rectCopies.mp hc
+  obtain ⟨a', b', ha', hb', rfl⟩ := mem_rectCopies.mp hc'
+  simp only [receiveRect] at hi hj ha hb ha' hb' t2 t3 t2' t3'
+  have e1 : k.mT = k'.mT := by
+    have h1 : (p.mbT * k.mT + 0 + a) / p.mbT = k.mT := div_eq_of_bounds (by omega) (by omega)
+    have h2 : (p.mbT * k'.mT + 0 + a') / p.mbT = k'.mT := div_eq_of_bounds (by omega) (by omega)
+    rw [hi] at h1; omega
+  have f1 : k.nT = k'.nT := by
+    have h1 : (p.nbT * k.nT + 0 + b) / p.nbT = k.nT := div_eq_of_bounds (by omega) (by omega)
+    have h2 : (p.nbT * k'.nT + 0 + b') / p.nbT = k'.nT := div_eq_of_bounds (by omega) (by omega)
+    rw [hj] at h1; omega
+  have hbatch : k.batch = k'.batch := by
+    rw [f1] at n1 n2; exact batch_unique p _ _ _ n1 n2 n1' n2' hv.numCol
+  have hkk : k = k' := by
+    cases k; cases k'
+    simp only at e1 f1 hbatch hmY hnY hmY' hnY'
+    subst e1 f1 hbatch; subst hmY hnY hmY' hnY'; rfl
+  subst hkk
+  have ea : a = a' := by omega
+  have eb : b = b' := by omega
+  subst ea eb
+  exact ⟨rfl, rfl⟩
+
+theorem reshuffle_window {α : Type} (p : Params) (hv : p.Valid) (ho : p.optimized = true) (order : List Task)
+    (hperm : order.Perm (reshuffleTasks p)) (src tgt : Nat → Nat → α) :
+    applyCopies src (reshuffleCopies p order) tgt = windowSpec p src tgt := by
+  apply window_result
+  · intro c hc
+    unfold reshuffleCopies at hc
+    obtain ⟨k, hk, hck⟩ := List.mem_flatMap.mp hc
+    exact (reshuffle_task_sound p hv ho k (mem_reshuffleTasks.mp (hperm.mem_iff.mp hk))).1 c hck
+  · intro i j hi hj
+    obtain ⟨k, hk, hmem⟩ := reshuffle_complete p hv ho i j hi hj
+    unfold reshuffleCopies
+    exact List.mem_flatMap.mpr ⟨k, hperm.mem_iff.mpr (mem_reshuffleTasks.mpr hk), hmem⟩
+
 end ParsecVerif.Redistribute
